@@ -125,6 +125,16 @@ Definition C01_base_order_independent := CGV.Compose.Statements.C01_base_order_i
 Definition C01_returned_graphs_iso := CGV.Compose.Statements.C01_returned_graphs_iso.
 Definition C01_completed_iso := CGV.Compose.Statements.C01_completed_iso.
 Definition C01_all_atom_step_inv := CGV.Compose.Statements.C01_all_atom_step_inv.
+(** the same for ANY aromaticity transcript that Hydro's contract admits ([transcript_ok]: same keys, adjacency and node
+    attributes but `aromatic`, networkx dict invariants): hydrogen count = least fitting valence minus the TRANSCRIPT's
+    bond sum; the returned graphs of two runs are isomorphic when the two transcripts give the same orders through phi
+    ([corr_orders]); the identity transcript is an instance *)
+Definition C01_all_atom_step_car := CGV.Compose.Statements.C01_all_atom_step_car.
+Definition C01_cut_hydrogens_car := CGV.Compose.Statements.C01_cut_hydrogens_car.
+Definition C01_returned_graphs_iso_car := CGV.Compose.Statements.C01_returned_graphs_iso_car.
+Definition C01_base_order_returned_car := CGV.Compose.Statements.C01_base_order_returned_car.
+Definition C01_transcript_ok_id := CGV.Compose.Statements.C01_transcript_ok_id.
+Definition C01_corr_orders_id := CGV.Compose.Statements.C01_corr_orders_id.
 (** the label discipline of a well-formed cut meets the hypotheses of C01_bonding_step *)
 Definition C01_cut_tables_dedicated := CGV.Compose.Statements.C01_cut_tables_dedicated.
 Definition C01_cut_tables_disjoint := CGV.Compose.Statements.C01_cut_tables_disjoint.
@@ -147,4 +157,10 @@ Print Assumptions C01_base_order_independent.
 Print Assumptions C01_returned_graphs_iso.
 Print Assumptions C01_completed_iso.
 Print Assumptions C01_all_atom_step_inv.
+Print Assumptions C01_all_atom_step_car.
+Print Assumptions C01_cut_hydrogens_car.
+Print Assumptions C01_returned_graphs_iso_car.
+Print Assumptions C01_base_order_returned_car.
+Print Assumptions C01_transcript_ok_id.
+Print Assumptions C01_corr_orders_id.
 Print Assumptions C01_hypothesis_test_sound.
